@@ -371,9 +371,10 @@ Hypothesis keyf_len : forall n, length (keyf n) = 4%nat.
 Lemma ws_TR_init : ws_TR keyf ws_init [] [] None.
 Proof. exists [], []. cbn. repeat split; [constructor|]. left. split; reflexivity. Qed.
 
-Lemma ws_run_inv c ops : RInv wsst (ws_TR keyf) c (ws_run keyf c ops).
+Lemma ws_run_inv c ops : conn_first ops = true -> RInv wsst (ws_TR keyf) c (ws_run keyf c ops).
 Proof.
-  apply (run_inv wsst (ws_send keyf) (ws_TR keyf) (ws_TR_none keyf) (ws_send_spec keyf)). apply ws_TR_init.
+  intros Hcf.
+  apply (run_inv wsst (ws_send keyf) (ws_TR keyf) (ws_TR_none keyf) (ws_send_spec keyf)); [assumption|apply ws_TR_init].
 Qed.
 
 (* a stream that satisfies the relation parses into well-formed frames whose payloads are the bytes counted as
@@ -401,14 +402,14 @@ Proof.
   unfold unsent_q. cbn [map concat]. rewrite zlen_app. pose proof (zlen_nonneg (concat (map offered q))). lia.
 Qed.
 
-Lemma ws_acc_deframe c ops :
+Lemma ws_acc_deframe c ops : conn_first ops = true ->
   zlen (concat (enq_bytes ops)) < 9223372036854775808 ->
   exists chunks rest,
     deframe (wire_of (r_trace (ws_run keyf c ops))) = Some (chunks, rest)
     /\ concat chunks = acc_of (r_trace (ws_run keyf c ops))
     /\ acc_of (r_trace (ws_run keyf c ops)) ++ unsent (r_st (ws_run keyf c ops)) = concat (enq_bytes ops).
 Proof.
-  intros Hsz. destruct (ws_run_inv c ops) as [[done HI] _ _].
+  intros Hcf Hsz. destruct (ws_run_inv c ops Hcf) as [[done HI] _ _].
   pose proof (IB_stream _ _ _ _ _ _ _ _ HI) as Hs. pose proof (ib_tr _ _ _ _ _ _ _ _ HI) as Ht.
   unfold ws_run in Hs. rewrite run_hist in Hs. unfold hist_of in Hs. rewrite hist_from_bytes in Hs.
   fold (ws_run keyf c ops) in Hs.
@@ -421,26 +422,26 @@ Proof.
   - intros d Hd. apply head_off_le in Hd. lia.
 Qed.
 
-Lemma ws_stream c ops :
+Lemma ws_stream c ops : conn_first ops = true ->
   zlen (concat (enq_bytes ops)) < 9223372036854775808 ->
   exists chunks rest,
     deframe (wire_of (r_trace (ws_run keyf c ops))) = Some (chunks, rest)
     /\ concat chunks ++ unsent (r_st (ws_run keyf c ops)) = concat (enq_bytes ops).
 Proof.
-  intros Hsz. destruct (ws_acc_deframe c ops Hsz) as (chunks & rest & Hd & Hc & Hs).
+  intros Hcf Hsz. destruct (ws_acc_deframe c ops Hcf Hsz) as (chunks & rest & Hd & Hc & Hs).
   exists chunks, rest. split; [assumption|]. rewrite Hc. exact Hs.
 Qed.
 
-Lemma ws_frames_wf c ops :
+Lemma ws_frames_wf c ops : conn_first ops = true ->
   zlen (concat (enq_bytes ops)) < 9223372036854775808 ->
   let w := wire_of (r_trace (ws_run keyf c ops)) in
   forallb ws_frame_wf (fst (parse_frames (length w) w)) = true.
 Proof.
-  intros Hsz. cbn zeta. destruct (ws_stream c ops Hsz) as (cs & rest & Hd & _).
+  intros Hcf Hsz. cbn zeta. destruct (ws_stream c ops Hcf Hsz) as (cs & rest & Hd & _).
   apply deframe_some_wf in Hd as (Hwf & _). exact Hwf.
 Qed.
 
-Lemma ws_qos0_published c ops tr1 e tr2 i :
+Lemma ws_qos0_published c ops tr1 e tr2 i : conn_first ops = true ->
   zlen (concat (enq_bytes ops)) < 9223372036854775808 ->
   r_trace (ws_run keyf c ops) = tr1 ++ e :: tr2 -> e = CbPublish i \/ e = SetPublished i ->
   0 <= i
@@ -448,7 +449,7 @@ Lemma ws_qos0_published c ops tr1 e tr2 i :
   /\ exists chunks, deframe (wire_of tr1) = Some (chunks, [])
                     /\ concat chunks = concat (firstn (S (Z.to_nat i)) (enq_bytes ops)).
 Proof.
-  intros Hsz Htr He. destruct (ws_run_inv c ops) as [[done HI] _ _].
+  intros Hcf Hsz Htr He. destruct (ws_run_inv c ops Hcf) as [[done HI] _ _].
   pose proof (ib_pubs _ _ _ _ _ _ _ _ HI) as Hp. rewrite Htr in Hp.
   apply (pubs_ok_split wsst (ws_TR keyf) _ _ _ _ i) in Hp; [|assumption].
   destruct Hp as (H0 & Hex & Hl & (t & Ht)).
@@ -461,7 +462,7 @@ Proof.
   exists chunks. rewrite <- (Hr Hb). split; [assumption|]. rewrite Hc. exact Hl.
 Qed.
 
-Lemma ws_qos0_once c ops :
+Lemma ws_qos0_once c ops : conn_first ops = true ->
   zlen (concat (enq_bytes ops)) < 9223372036854775808 ->
   let r := ws_run keyf c ops in
   NoDup (setpub_ids (r_trace r)) /\ NoDup (cbpub_ids (r_trace r))
@@ -472,23 +473,23 @@ Lemma ws_qos0_once c ops :
        /\ setpub_ids (r_trace r) = setpub_of c done
        /\ cbpub_ids (r_trace r) = cbpub_of c done.
 Proof.
-  intros Hsz. cbn zeta. destruct (ws_run_inv c ops) as [[done HI] _ _].
+  intros Hcf Hsz. cbn zeta. destruct (ws_run_inv c ops Hcf) as [[done HI] _ _].
   destruct (IB_once _ _ _ _ _ _ _ _ HI) as [N1 N2]. split; [assumption|]. split; [assumption|].
-  destruct (ws_acc_deframe c ops Hsz) as (chunks & rest & Hd & Hc & _).
+  destruct (ws_acc_deframe c ops Hcf Hsz) as (chunks & rest & Hd & Hc & _).
   exists done, chunks, rest. pose proof HI as [H1 H2 _ _ H5 H6 _ _].
   unfold ws_run in H1. rewrite run_hist in H1. rewrite Hc. repeat split; assumption.
 Qed.
 
-Lemma ws_want_write c ops :
+Lemma ws_want_write c ops : conn_first ops = true ->
   let st := r_st (ws_run keyf c ops) in
   unsent st <> [] -> want_write st = true /\ (sock st = true -> regw st = true).
 Proof.
-  cbn zeta. intros H. split; [apply unsent_want_write; assumption|].
-  destruct (ws_run_inv c ops) as [_ Ha _]. intros Hs. apply Ha; [assumption|].
+  intros Hcf. cbn zeta. intros H. split; [apply unsent_want_write; assumption|].
+  destruct (ws_run_inv c ops Hcf) as [_ Ha _]. intros Hs. apply Ha; [assumption|].
   intros Hq. apply H. unfold unsent. rewrite Hq. reflexivity.
 Qed.
 
-Lemma ws_terminates c ops : ~ In RcOutOfFuel (r_rcs (ws_run keyf c ops)).
-Proof. apply (ws_run_inv c ops). Qed.
+Lemma ws_terminates c ops : conn_first ops = true -> ~ In RcOutOfFuel (r_rcs (ws_run keyf c ops)).
+Proof. intros Hcf. apply (ws_run_inv c ops Hcf). Qed.
 
 End WsTheorems.
